@@ -36,7 +36,7 @@ ImEQuery(x, code, st) == EG[x].q[EvIdx(code, st)]
 (* what the standalone event decoder exposes: its mode (getter) and - through what it shows the
    layout when a plain key is pressed - its modifiers *)
 ImEMode(x) == EG[x].obs[2]
-ImEMods(x) == EG[x].q[EvIdx("A", "Down")][4]
+ImEMods(x) == LET q == EG[x].q[EvIdx("A", "Down")] IN IF q[1] = "q" THEN q[4] ELSE -1   \* -1: not shown
 
 (* a stage state that was reached but not explored standalone (exploration cap): the wiring cannot
    be followed through it *)
